@@ -445,6 +445,13 @@ class Connection(ExportImport):
                 del obj._p_oid
                 if obj._p_changed:
                     obj._p_changed = False
+            elif oid in self._creating or (
+                    self._savepoint_storage is not None and
+                    oid in self._savepoint_storage.creating):
+                # A new object that was stored already: it is disowned,
+                # with its state, by _invalidate_creating().  (As a ghost
+                # without a database it could never get its state back.)
+                pass
             else:
                 # Note: If we invalidate a non-ghostifiable object
                 # (i.e. a persistent class), the object will
@@ -690,8 +697,11 @@ class Connection(ExportImport):
         # by another thread, so the risk of a reread is pretty low.
         # It's really not worth the effort to pursue this.
 
-        self._cache.invalidate(self._modified)
+        # (New objects first: they keep their state when they are
+        # disowned, and are not in the cache any more when the modified
+        # ones -- among them what savepoints stored -- are invalidated.)
         self._invalidate_creating()
+        self._cache.invalidate(self._modified)
         while self._added:
             oid, obj = self._added.popitem()
             if obj._p_changed:
